@@ -429,7 +429,8 @@ func (m *MatchOpenVPN) Provision(_ caddy.Context) error {
 				m.clientKeys = append(m.clientKeys, ck)
 			}
 		}
-	} else if len(m.ClientKeyFiles) > 0 {
+	}
+	if len(m.ClientKeyFiles) > 0 {
 		for _, clientKeyFile := range m.ClientKeyFiles {
 			clientKeyFile = repl.ReplaceAll(clientKeyFile, "")
 			if len(clientKeyFile) > 0 {
